@@ -110,8 +110,40 @@ func CheckLivelock(h *History) ([]Finding, LivelockFacts) {
 						}
 					}
 				}
+				// ... or, more generally: is every eviction of the loop made for a workload that never starts inside the
+				// loop (its pods are only ever nominated; the nomination is not carried into the next cycle and the freed
+				// capacity is handed to other pods first)? Loops in which the beneficiaries of the evictions do start
+				// (queues taking turns) are a different matter and keep the general signature.
+				preemptors, started := map[string]bool{}, map[string]bool{}
+				unnamed := false
+				for k := i; k < j; k++ {
+					for _, c := range h.Cycles[k].Calls {
+						if c.Err != "" {
+							continue
+						}
+						if c.Kind == "evict" {
+							if c.Preemptor == "" {
+								unnamed = true
+							}
+							preemptors[c.Preemptor] = true
+						}
+						if c.Kind == "bind" {
+							if pv := h.Cycles[k].Before.ByName[c.Pod]; pv != nil {
+								started[pv.Workload] = true
+							}
+						}
+					}
+				}
+				noBeneficiaryStarts := !unnamed && len(preemptors) > 0
+				for p := range preemptors {
+					if started[p] {
+						noBeneficiaryStarts = false
+					}
+				}
 				if onlyFresh {
 					sig = "c15-lasso-bound-then-evicted-in-same-cycle"
+				} else if noBeneficiaryStarts {
+					sig = "c15-lasso-evictions-for-nominee-that-never-starts"
 				}
 				out = append(out, Finding{sig, fmt.Sprintf(
 					"the cluster state at the start of cycle %d equals the state at the start of cycle %d although %d pods were evicted in between: %s || state: %s",
